@@ -58,11 +58,13 @@ LEVEL_NOTE = ("Recursive element type (struct Node { int v; Array<Node> kids; }:
               "proved counterpart of this K-only model is lean/AslModel/RcNest.lean with C12.nested_programs_safe (release cascade and "
               "acquire-before-release for handles stored inside objects, in general). Known finding shared-growth: operations that would increase the capacity of a block whose rc > 1 are excluded (left out "
               "by harness and model; the theorems are about exactly those runs). Not covered by model or harness: converting "
-              "constructor (operator=(Array<K>) only in the Array<Node> histories), operator=(Var), initializer-list constructor/assignment/append, map / map_ / with, "
+              "constructor (operator=(Array<K>) only in the Array<Node> histories), operator=(Var), map / map_ / with, initializer lists longer than 4 (the initializer-list constructor / operator= / append with 0..4 elements run as K ops newil / asgil / appil on the model steps of Array(p,n) / copy(p,n) / append(p,n), the same statements in the source), "
               "operator< of arrays, join, deprecated destroy()/ptr conversions, shuffle. sort is modelled on the element sequence "
-              "(reads/assignments), not on cells: the pivot copy and the swap temporaries of quicksort never touch the model's live "
-              "counter, so constructed-once/destroyed-once for those temporaries rests on the harness counter and LSan (K) only; the "
-              "same holds for the rc++/rc-- pairs of temporaries inside clone()/concat(), which the model collapses. The history "
+              "(reads/assignments); its element temporaries (pivot copy T p = a[n/2] per pass, swap's T A = a) are kept by a ledger run "
+              "function qsortListT (live, copies made, destroyed, peak): sort_temporaries_destroyed / sort_counted_lifecycle prove that it computes qsortList's sequence, "
+              "that on return the instance counter is back where it started with every temporary destroyed, each value present as often as before, and that the block's live counter after sortB is the ledger's; "
+              "the ledger is tied to the code by the K op sortc (counted type: number of copy constructions during the sort and the peak of live objects are compared exactly). For the "
+              "rc++/rc-- pairs of temporaries inside clone()/concat(), which the model collapses, construct-once/destroy-once rests on LSan/K only. The history "
               "theorems are over six simultaneously live user handles (NS = 6, plus operation temporaries). Trusted: Lean kernel, "
               "harness, generator; malloc/realloc/memmove as allocate-copy-release and bitwise relocation; the element types are "
               "trivially relocatable. The growth policy (3, 2s, max(2s,m), malloc below / realloc from 2048 bytes) is transcribed in "
